@@ -76,7 +76,7 @@ def make_bc(mesh, cls, setup, tag):
                 bf.b = 64.0 + U.generic_array(sh, tag=t + 20)
                 bf.c = U.generic_array(sh, tag=t + 40, signed=True)
     elif setup == "periodic":
-        pax = next((ax for ax in range(d) if U.periodic_ok(kinds[ax])), None)
+        pax = U.periodic_axis(cls, [int(k) for k in mesh.dims], 1)
         for ax in range(d):
             for hi_, side in enumerate(U.SIDES[ax]):
                 if ax == pax:
